@@ -93,7 +93,7 @@ def with_dups(n, extra, tag):
 
 ENTRY = ['fnmatch.fnmatch', 'fnmatch.filter', 'fnmatch.translate', 'fnmatch.compile', 'glob.globmatch', 'glob.globfilter',
          'glob.translate', 'glob.compile', 'glob.glob', 'glob.iglob', 'PurePath.match', 'PurePath.globmatch', 'Path.glob',
-         'Path.rglob', 'WcMatch', 'WcMatch.exclude']
+         'Path.rglob', 'WcMatch', 'WcMatch.exclude', 'fnmatch.filter(no names)', 'glob.globfilter(no names)']
 
 
 def invoke(entry, incl, excl, flagnames, limit, root):
@@ -109,6 +109,8 @@ def invoke(entry, incl, excl, flagnames, limit, root):
             return F.fnmatch('a', incl, flags=fl, **kw)
         if entry == 'fnmatch.filter':
             return F.filter(['a', 'b'], incl, flags=fl, **kw)
+        if entry == 'fnmatch.filter(no names)':
+            return F.filter([], incl, flags=fl, **kw)       # the patterns are checked whether or not there is a name to match
         if entry == 'fnmatch.translate':
             return F.translate(incl, flags=fl, **kw)
         return F.compile(incl, flags=fl, **kw)
@@ -135,6 +137,8 @@ def invoke(entry, incl, excl, flagnames, limit, root):
         return G.globmatch('a', incl, flags=fl, **kw)
     if entry == 'glob.globfilter':
         return G.globfilter(['a', 'b'], incl, flags=fl, **kw)
+    if entry == 'glob.globfilter(no names)':
+        return G.globfilter((), incl, flags=fl, **kw)
     if entry == 'glob.translate':
         return G.translate(incl, flags=fl, **kw)
     if entry == 'glob.compile':
